@@ -225,7 +225,13 @@ pub fn start_events(sys: &Sys, specs: &[OpSpec], max_out: usize, max_kind: usize
                 .filter(|&&i| kind_of(&sys.m.ops[i].spec) == kind_of(s))
                 .count();
             if same < max_kind {
-                evs.push(Ev::Start(s.clone()));
+                if sys.params["worker"].as_bool().unwrap_or(false) && sys.m.worker_busy.is_none() {
+                    // one long-lived handle used for one operation after the other, and clones of it
+                    evs.push(Ev::StartW(s.clone()));
+                    evs.push(Ev::StartWC(s.clone()));
+                } else {
+                    evs.push(Ev::Start(s.clone()));
+                }
             }
         }
     }
